@@ -22,12 +22,18 @@ connection runs `reuseConnection`, which is two atomic steps (the keyed RW mutex
   reaped it too — `reapPeer` runs twice for `o`). It may run at any moment, at most once per side, and only on
   sides where the scenario allows it (`lateP`/`lateQ`); whatever is cached for the peer at that moment is treated
   by `reap loaded` like in an ordinary reap, although it is not the connection that triggered the reap.
-  Stale reaps are environment events: a state is `final` when no negotiation step and no due reap is left,
-  whether or not a stale reap is still possible.
+* `kill`  the pre-existing connection `e` DIES for a reason outside the negotiation (the peer's end went away, the
+  path broke, idle timeout): at any moment, at most once, and only where the scenario allows it (`dieE`). Nothing
+  else happens in that step; the close-watchers of `e` (`reapE`) become due at every side that caches `e`, and each
+  of them may run before, between or after the snapshot and the decision of a negotiation end of that side - in
+  particular an end can report CACHED and find the entry gone when it decides.
+  Stale reaps and the death of `e` are environment events: a state is `final` when no negotiation step and no due
+  reap is left, whether or not an environment event is still possible.
 
-Every connection remembers what closed it FIRST (`Cl`): the negotiation (`neg`) or a stale reap (`late`); the
-closes made by a reap count as whatever closed the connection whose death triggered that reap. "A reused
-connection is never closed by the negotiation" is judged on `neg`; without stale reaps every close is `neg`.
+Every connection remembers what closed it FIRST (`Cl`): the negotiation (`neg`) or the environment (`late`: a
+stale reap, or the death of `e`); the closes made by a reap count as whatever closed the connection whose death
+triggered that reap. "A reused connection is never closed by the negotiation" is judged on `neg`; without
+environment events every close is `neg`.
 
 `snapshot`, `decide` and `reap` are parameters (`Table`); `genTable` is the translation of the current Go source.
 Core Lean only.
@@ -72,7 +78,7 @@ def genTable : Table := ⟨Gen.C41.snapshot, Gen.C41.decide, Gen.C41.reap⟩
 inductive Cl where
   | open
   | neg     -- the negotiation (508), the accept loop (406), or the reap of a connection that was closed that way
-  | late    -- a stale reap, or the reap of a connection that was closed that way
+  | late    -- the environment: a stale reap, the death of `e` (`kill`), or the reap of a connection closed that way
 deriving DecidableEq, Repr
 
 /-- what `reuseConnection` returned -/
@@ -107,6 +113,8 @@ structure St where
   /-- a stale reap may still run at P / Q -/
   lateP : Bool := false
   lateQ : Bool := false
+  /-- the pre-existing connection `e` may still die for a reason outside the negotiation -/
+  dieE : Bool := false
 deriving DecidableEq, Repr
 
 def St.pc (s : St) : Proc → PC
@@ -140,15 +148,15 @@ def Proc.active (s : St) : Proc → Bool
   | .Qd | .Pd => s.dual
 
 inductive Step where
-  | snap (i : Proc) | dec (i : Proc) | reap (i : Proc) | reapE (x : Side) | late (x : Side)
+  | snap (i : Proc) | dec (i : Proc) | reap (i : Proc) | reapE (x : Side) | late (x : Side) | kill
 deriving DecidableEq, Repr
 
 def allProcs : List Proc := [.Pc, .Qc, .Qd, .Pd]
 /-- the steps of the negotiations and the reaps that are due after them -/
 def ownSteps : List Step := allProcs.map .snap ++ allProcs.map .dec ++ allProcs.map .reap ++ [.reapE .P, .reapE .Q]
-/-- … and the stale reaps -/
-def lateSteps : List Step := [.late .P, .late .Q]
-def allSteps : List Step := ownSteps ++ lateSteps
+/-- … and the environment events: the stale reaps, the death of the pre-existing connection -/
+def envSteps : List Step := [.late .P, .late .Q, .kill]
+def allSteps : List Step := ownSteps ++ envSteps
 
 def PC.status? : PC → Option (CState × Dir)
   | .idle => none
@@ -162,6 +170,7 @@ def enabled (s : St) : Step → Bool
   | .reap i => (match s.pc i with | .done _ .fresh false => true | _ => false) && s.closed i.conn
   | .reapE x => s.watch x && s.closed .e
   | .late x => s.lateOk x
+  | .kill => s.dieE && !s.closed .e
 
 def entryDir : Entry → Dir
   | some (_, d) => d
@@ -219,13 +228,15 @@ def step (T : Table) (s : St) : Step → St
     let s := reapPeer T s x none .late
     match x with
     | .P => { s with lateP := false } | .Q => { s with lateQ := false }
+  | .kill => { s.close .late .e with dieE := false }
 
 /-- run an arbitrary list of step labels; labels that are not enabled are skipped -/
 def run (T : Table) (s : St) : List Step → St
   | [] => s
   | e :: l => if enabled s e then run T (step T s e) l else run T s l
 
-/-- nothing left to do: every negotiation finished, every due reap done (a stale reap may still be possible) -/
+/-- nothing left to do: every negotiation finished, every due reap done (an environment event may still be
+possible) -/
 def final (s : St) : Bool := (ownSteps.filter (enabled s)).isEmpty
 
 /-! Evaluation helpers: `fX v k = k v` (lemmas `f*_eq` in Props), but reducing `fX v k` forces `v` to a
@@ -259,18 +270,18 @@ def fPC (p : PC) (k : PC → α) : α :=
 def fSt (s : St) (k : St → α) : α :=
   fB s.dual fun a => fEntry s.cacheP fun b => fEntry s.cacheQ fun c => fCl s.clE fun d => fCl s.clC fun e =>
   fCl s.clD fun f => fPC s.pPc fun g => fPC s.pQc fun h => fPC s.pQd fun i => fPC s.pPd fun j =>
-  fB s.watchP fun wp => fB s.watchQ fun wq => fB s.lateP fun lp => fB s.lateQ fun lq =>
-  k ⟨a, b, c, d, e, f, g, h, i, j, wp, wq, lp, lq⟩
+  fB s.watchP fun wp => fB s.watchQ fun wq => fB s.lateP fun lp => fB s.lateQ fun lq => fB s.dieE fun de =>
+  k ⟨a, b, c, d, e, f, g, h, i, j, wp, wq, lp, lq, de⟩
 end force
 
 /-- exhaustive exploration of all interleavings from `s` (fuel = bound on remaining steps): `prop` is demanded in
-every final state on the way (stale reaps may still follow a final state) -/
+every final state on the way (environment events may still follow a final state) -/
 def explore (T : Table) (prop : St → Bool) : Nat → St → Bool
   | 0, s => (allSteps.filter (enabled s)).isEmpty && prop s
   | n+1, s =>
     match ownSteps.filter (enabled s) with
-    | [] => prop s && (lateSteps.filter (enabled s)).all fun e => fSt (step T s e) fun s' => explore T prop n s'
-    | en => (en ++ lateSteps.filter (enabled s)).all fun e => fSt (step T s e) fun s' => explore T prop n s'
+    | [] => prop s && (envSteps.filter (enabled s)).all fun e => fSt (step T s e) fun s' => explore T prop n s'
+    | en => (en ++ envSteps.filter (enabled s)).all fun e => fSt (step T s e) fun s' => explore T prop n s'
 
 /-- the connection a side caches -/
 def St.cached (s : St) (x : Side) : Option Conn := (s.cache x).map (·.1)
@@ -282,7 +293,8 @@ def noSplitBrain (s : St) : Bool :=
   | _, _ => true
 
 /-- T2: a connection handed back as "reused" was not closed by the negotiation(s) (nor by a reap that follows
-them; a stale reap of an older connection is not part of the negotiation) -/
+them; a stale reap of an older connection and the death of the pre-existing connection are not part of the
+negotiation) -/
 def reusedNotClosed (s : St) : Bool :=
   allProcs.all fun i => match s.pc i with
     | .done _ (.reused (some x)) _ => (match s.cl x with | .neg => false | _ => true)
@@ -321,8 +333,14 @@ def preStates : List (Entry × Entry) :=
 /-- which sides may see a stale reap: none, or one of the two -/
 def lateConfigs : List (Bool × Bool) := [(false, false), (true, false), (false, true)]
 
-def init (dual : Bool) (pre : Entry × Entry) (late : Bool × Bool := (false, false)) : St :=
+/-- the environment scenarios covered by the theorems, `(stale reap at P, stale reap at Q), e may die`: at most ONE
+environment event per run - none, a stale reap at P, a stale reap at Q, or the death of the pre-existing connection -/
+def envConfigs : List ((Bool × Bool) × Bool) :=
+  [((false, false), false), ((true, false), false), ((false, true), false), ((false, false), true)]
+
+/-- `die`: the pre-existing connection may die during the run (it has to exist: some side caches it) -/
+def init (dual : Bool) (pre : Entry × Entry) (late : Bool × Bool := (false, false)) (die : Bool := false) : St :=
   { dual := dual, cacheP := pre.1, cacheQ := pre.2, watchP := pre.1.isSome, watchQ := pre.2.isSome,
-    lateP := late.1, lateQ := late.2 }
+    lateP := late.1, lateQ := late.2, dieE := die && (pre.1.isSome || pre.2.isSome) }
 
 end Specter.C41
